@@ -27,9 +27,10 @@ PROP = {
                   "observables stable over several real-time ticks). Abstracted: the codec (a value is its encoding; serde/postbag assumed exact "
                   "and self-delimiting); the spawn_blocking (de)serializer threads beyond 'chunks in order, stops at the failure / when the value "
                   "is complete' (the narrow race in which the deserializer thread drops its channel between permit.send and the next reserve is "
-                  "not exhibited); the chmux layer below is the C01-C03 model (frames = arbitrary framings of complete/unfinished messages; that "
-                  "the real sender emits exactly such framings under all schedules is C01's parse theorem, not re-proved at frame granularity "
-                  "here); connection failure appears as 'the schedule stops' (prefix) and, for mpsc, as an explicit final-error action; "
+                  "not exhibited); the chmux layer below is the C01-C03 model: the receiver theorems quantify over arbitrary framings of complete/unfinished "
+                  "messages, and C04_port_emits_framings proves on the PortFlow model that under every port schedule a base sender's port emits "
+                  "exactly such a framing (the identification of the attempt list with send_all's output is by definition of base_send, not a "
+                  "composed state machine); connection failure appears as 'the schedule stops' (prefix) and, for mpsc, as an explicit final-error action; "
                   "mpsc::Receiver::recv_many (documented to lose a batch on a non-final error) and Distributor are not modelled. For mpsc with "
                   "moved senders both base halves use the sender's max_item_size, so 'too large for the receiver only' is exercised on base/lr.",
     "trivial_sig": r"^(unparsable|setup-failed)$",
